@@ -3,6 +3,8 @@ package main
 import (
 	"fmt"
 	"strings"
+
+	"github.com/semihalev/twig"
 )
 
 // C11 — include renders in the right scope and never changes the includer's state.
@@ -42,6 +44,50 @@ func runC11(e *Env) error {
 		"<"+view()+">"+"{% if false %}n{% else %}{% set a = 'child-a' %}{% set b = 'child-b' %}{% set c = 1 %}{% set d = 2 %}{% endif %}CB",
 		"<"+view()+">"+"{% if false %}n{% elseif true %}{% if true %}{% set a = 'x' %}{% set zz = 1 %}{% endif %}{% set b = 'y' %}{% else %}m{% endif %}{% if a %}{% set c = 1 %}{% set d = 2 %}{% endif %}CB")
 	nestedMissing := "<in>{% include 'nosuch-inner' %}</in>"
+	// (s1) the included template is registered again between two renders of the includer: static and computed names,
+	// top level and inside a loop / macro / included template follow it alike
+	for _, form := range []string{"{% include 'part' %}", "{% include 'pa' ~ 'rt' %}", "{% for i in [1, 2] %}{% include 'part' %}{% endfor %}", "{% macro m() %}{% include 'part' %}{% endmacro %}{{ m() }}",
+		"{% include 'mid' %}", "{% include 'part' with {'q': 1} only %}", "{% include 'part' ignore missing %}"} {
+		v1, v2 := "[one {{ 1 + 1 }}]", "[two {% if true %}{{ 2 + 2 }}{% endif %}]"
+		ref := runImpl(&Case{Templates: map[string]string{"main": form, "part": v2, "mid": "{% include 'part' %}"}, Main: "main", Ctx: map[string]any{}, FailAt: -1})
+		res := guarded(func() (string, error) {
+			eng := twig.New()
+			for _, kv := range [][2]string{{"part", v1}, {"mid", "{% include 'part' %}"}, {"main", form}} {
+				if err := eng.RegisterString(kv[0], kv[1]); err != nil {
+					return "", err
+				}
+			}
+			for k := 0; k < 2; k++ {
+				if _, err := eng.Render("main", map[string]interface{}{}); err != nil {
+					return "", err
+				}
+			}
+			if err := eng.RegisterString("part", v2); err != nil {
+				return "", err
+			}
+			return eng.Render("main", map[string]interface{}{})
+		})
+		r.Seen("reregister:"+form, true)
+		if mapClass(res.Class) != ref.Class || res.Out != ref.Out {
+			r.Violate(Violation{Key: "include-stale-after-reregistration", What: fmt.Sprintf("%s: after the included template is registered again the includer renders %q (%s), a fresh engine renders %q (%s)", form, res.Out, res.Class, ref.Out, ref.Class),
+				Broken: "theorem C11_visibility (the included template is the one registered now; implementation-only oracle)",
+				Replay: map[string]any{"kind": "render", "templates": map[string]string{"main": form, "part": v2}, "main": "main", "first_part": v1, "got": res.Out, "want": ref.Out}})
+		}
+	}
+	// (s2) `ignore missing` forgives a template that does not exist — not one that a loader has and that does not parse
+	for _, form := range []string{"{% include 'broken' ignore missing %}", "{% include 'broken' %}", "{% include 'wrap' ignore missing %}"} {
+		res := guarded(func() (string, error) {
+			eng := twig.New()
+			eng.RegisterLoader(&sentinelLoader{name: "-", src: map[string]string{"main": "a" + form + "b", "broken": "x{% if %}{{ ", "part": "P", "wrap": "{% include 'broken' %}"}})
+			return eng.Render("main", nil)
+		})
+		r.Seen("loader-broken:"+form, true)
+		if res.Class == "" || res.Class == "not-found" {
+			r.Violate(Violation{Key: "include-broken-template-forgiven", What: fmt.Sprintf("%s where the loader supplies a template with a syntax error renders %q with error class %q: the syntax error must be reported", form, res.Out, res.Class),
+				Broken: "theorem C11_ignore_missing (only a missing template is forgiven; implementation-only oracle with a custom loader)",
+				Replay: map[string]any{"kind": "loader", "src": form, "got": res.Out, "class": res.Class, "err": fmt.Sprint(res.Err)}})
+		}
+	}
 	n := e.N(1200, 60000)
 	for i := 0; i < n && !r.Full(); i++ {
 		ctx := map[string]any{}
